@@ -1384,6 +1384,13 @@ def rule_dual(ctx, m):
                 diffs.append((x, y))
         if len(na) != len(nb):
             diffs.append(('length %d' % len(na), 'length %d' % len(nb)))
+        # the comparison is a contradiction rule between two copies of one text: it has a verdict only while the copies still have the same statement
+        # skeleton (kinds and nesting); a copy that was restructured on its own (extracted helper, merged branches) cannot be compared leaf by leaf
+        skel_a, skel_b = [(x[0], x[1]) for x in na], [(x[0], x[1]) for x in nb]
+        if skel_a != skel_b:
+            ctx.undecided('R-DUAL', '%s dual of %s' % (b, a), 'the two routines no longer have the same statement skeleton (%d vs %d statements): one was restructured on its own; '
+                          'no leaf-by-leaf verdict' % (len(na), len(nb)))
+            continue
         ctx.check(not diffs, 'R-DUAL', fb.file, b, 'dual of %s' % a,
                   '%s must be %s with `> 0` <-> `< 0` and +inf <-> -inf and otherwise identical index arithmetic; first difference: %s vs %s (%d differences)'
                   % (b, a, diffs[0][0] if diffs else '', diffs[0][1] if diffs else '', len(diffs)), fb.line)
@@ -1915,7 +1922,34 @@ def rule_pyx_path_assembly(ctx, m):
         loops = [s_ for s_ in walk_stmts(f.body) if s_.k in ('for', 'while') and has_app(s_)]
         ok = len(loops) == 1 and plen is not None
         why = ''
-        if ok:
+        comps = [(s_, s_.value) for s_ in walk_stmts(f.body) if s_.k == 'assign' and s_.target[0] == 'var' and s_.value[0] == 'comp' and len(s_.value[3]) == 1
+                 and s_.value[2][0] == 'tuple' and len(s_.value[2][1]) == 2] if not loops else []
+        if not loops and len(comps) == 1 and plen is not None:
+            # the same assembly as a list comprehension over range(n) / range(n - 1, -1, -1) / reversed(range(n))
+            cs, cv = comps[0]
+            tgt, it, conds = cv[3][0]
+            order = None
+            P = ('var', plen)
+            rng = it
+            rev = False
+            if rng[0] == 'call' and dotted(rng[1]) == 'reversed' and len(rng[2]) == 1:
+                rng, rev = rng[2][0], True
+            if rng[0] == 'call' and dotted(rng[1]) == 'range' and not conds and tgt[0] == 'var':
+                a_ = rng[2]
+                if a_ == (P,) or a_ == (('num', 0), P) or a_ == (('num', 0), P, ('num', 1)):
+                    order = 'asc'
+                elif len(a_) == 3 and a_[0] == ('bin', '-', P, ('num', 1)) and a_[1] in (('num', -1), ('un', 'neg', ('num', 1))) and a_[2] in (('num', -1), ('un', 'neg', ('num', 1))):
+                    order = 'desc'
+                if rev and order is not None:
+                    order = 'desc' if order == 'asc' else 'asc'
+            e1, e2 = cv[2][1]
+            ok_app = order is not None and e1 == ('idx', ('var', a1), tgt) and e2 == ('idx', ('var', a2), tgt)
+            lst = fmt(cs.target)
+            revs = [s_ for s_ in walk_stmts(f.body) if s_.k == 'expr' and s_.value[0] == 'call' and fmt(s_.value[1]) == '%s.reverse' % lst]
+            ok_rev = all(r_.line > cs.line for r_ in revs) and ((order == 'asc' and len(revs) == 1) or (order == 'desc' and len(revs) == 0))
+            ok = ok_app and ok_rev
+            why = 'comprehension: visiting order=%s, element ok=%s, reversals afterwards=%d' % (order, ok_app, len(revs))
+        elif ok:
             lp = loops[0]
             # the order in which the recorded entries are visited: ascending (0 .. n-1) or descending (n-1 .. 0)
             order = None
